@@ -119,7 +119,7 @@ def cases(tier, seed):
                 for k in range(j, n + 1):
                     for nested in (False, True):
                         yield {"k": "twice", "base": name, "lines": lines, "slice": [i, j], "again": k, "nested": nested}
-    for g in ("self", "cycle2", "cycle3", "missing", "missing.nested", "dir"):
+    for g in ERR_GRAPHS:
         yield {"k": "error", "graph": g}
     for g in OK_GRAPHS:
         yield {"k": "okgraph", "graph": g}
@@ -160,7 +160,13 @@ OK_GRAPHS = {
                   [" ORG $2000", "UP1 NOP", "LO1 CLRA", " BNE UP1", " RTS"]),
     "samebase.deep": ({"main.asm": [" INCLUDE x/inc.asm"], "x/inc.asm": [" NOP", " INCLUDE x/y/inc.asm"], "x/y/inc.asm": ["Y1 RTS", " INCLUDE inc.asm"], "inc.asm": [" BRA Y1"]},
                       [" NOP", "Y1 RTS", " BRA Y1"]),
+    # a parent step through a symbolic link: lnk/.. is the parent of the directory the link points to, not the working directory
+    "symlink.parent": ({"main.asm": [" ORG $3000", "S1 LDA #$11", " INCLUDE lnk/../defs.asm", " BRA S1"], "real/defs.asm": ["R1 FCB 1,2,3", " LEAX R1,PCR"],
+                        "defs.asm": ["R1 FDB $AAAA,$BBBB", " NOP"], "real/sub/keep.asm": [" NOP"]},
+                       [" ORG $3000", "S1 LDA #$11", "R1 FCB 1,2,3", " LEAX R1,PCR", " BRA S1"]),
+    "symlink.file": ({"main.asm": [" INCLUDE alias.asm", " JMP T1"], "real/target.asm": ["T1 CLRA", " RTS"]}, ["T1 CLRA", " RTS", " JMP T1"]),
 }
+OK_LINKS = {"symlink.parent": {"lnk": "real/sub"}, "symlink.file": {"alias.asm": "real/target.asm"}}
 ERR_GRAPHS = {
     "self": {"main.asm": [" NOP", " INCLUDE main.asm"]},
     "cycle2": {"main.asm": [" INCLUDE a.asm"], "a.asm": [" NOP", " INCLUDE main.asm"]},
@@ -168,6 +174,10 @@ ERR_GRAPHS = {
     "missing": {"main.asm": [" NOP", " INCLUDE nothere.asm"]},
     "missing.nested": {"main.asm": [" INCLUDE a.asm"], "a.asm": [" INCLUDE nothere.asm"]},
     "dir": {"main.asm": [" INCLUDE ."]},
+    # a path through a directory that does not exist names no file, whatever follows the parent step
+    "missing.parent": {"main.asm": [" NOP", " INCLUDE nosuch/../a.asm"], "a.asm": ["A1 RTS"]},
+    "missing.parent.nested": {"main.asm": [" INCLUDE a.asm"], "a.asm": [" INCLUDE sub/nosuch/../../b.asm"], "b.asm": ["B1 RTS"], "sub/keep.asm": [" NOP"]},
+    "file.as.dir": {"main.asm": [" INCLUDE a.asm/../b.asm"], "a.asm": ["A1 RTS"], "b.asm": ["B1 RTS"]},
 }
 
 
@@ -182,6 +192,8 @@ def check_case(case):
         if case["k"] == "error":
             files = ERR_GRAPHS[case["graph"]]
             for fn, content in files.items():
+                if os.path.dirname(fn):
+                    os.makedirs(os.path.dirname(fn), exist_ok=True)
                 open(fn, "w").write("".join(ln + "\n" for ln in content))
             out = common.assemble_confirm(files["main.asm"], budget=10)
             cell = "error|" + case["graph"]
@@ -198,6 +210,8 @@ def check_case(case):
                 if os.path.dirname(fn):
                     os.makedirs(os.path.dirname(fn), exist_ok=True)
                 open(fn, "w").write("".join(ln + "\n" for ln in content))
+            for link, target in OK_LINKS.get(case["graph"], {}).items():
+                os.symlink(os.path.abspath(target), link)
             cell = "graph|" + case["graph"]
             ref = common.assemble_confirm(flat)
             got = common.assemble_confirm(files["main.asm"], budget=10)
